@@ -162,7 +162,7 @@ func (g *SessionManager) selectSession(msg interface{}) getty.Session {
 		return session
 	}
 
-	if g.sessionSize == 0 {
+	if atomic.LoadInt32(&g.sessionSize) == 0 {
 		ticker := time.NewTicker(time.Duration(checkAliveInternal) * time.Millisecond)
 		defer ticker.Stop()
 		for i := 0; i < maxCheckAliveRetry; i++ {
